@@ -105,6 +105,10 @@ func (r *Run) StartWatchdog(idle time.Duration) {
 				}
 				r.Violate(Violation{Case: "watchdog", Class: "deadlock-inside-zap", Msg: "the workload stopped making progress and every goroutine is parked with an unchanged stack, one of them inside zap: a call into zap never returns", Witness: where})
 				fmt.Printf("WATCHDOG property=%s: deadlock inside zap, goroutine:\n%s\n", r.Prop, where)
+				if r.ChildResult != "" {
+					_ = r.DumpTo(r.ChildResult)
+					os.Exit(0)
+				}
 				os.Exit(r.Finish())
 			}
 			since = time.Now() // slow, not dead: look again later
